@@ -249,6 +249,7 @@ def _xcheck_symbolic_side(case, cfg, seed):
   c = C.Ctx()
   with C.use(c):
     case.setup(cfg, c)
+    c.native_dtype = getattr(case, 'native_dtype', 'float64')
     c.concrete_rng = rng
     conc = case.concrete_inputs(cfg, rng)
     if conc is None:
@@ -356,7 +357,31 @@ def encode_value(v, env):
   return v
 
 
+def _to_float32(d):
+  if isinstance(d, dict):
+    out = {k: _to_float32(v) for k, v in d.items()}
+    if out.get('dtype') == 'float64':
+      out['dtype'] = 'float32'
+    return out
+  if isinstance(d, list):
+    return [_to_float32(v) for v in d]
+  return d
+
+
 def describe_call(contract, args, kw, env):
+  d = _describe_call(contract, args, kw, env)
+  if C_active_native_dtype() == 'float32':
+    d = _to_float32(d)
+    d['floatx'] = 'float32'
+  return d
+
+
+def C_active_native_dtype():
+  from . import ctx as C
+  return getattr(C.cur(), 'native_dtype', 'float64') if C.active() else 'float64'
+
+
+def _describe_call(contract, args, kw, env):
   if '.' in contract.qualname:
     cls, meth = contract.qualname.split('.')
     this = args[0]
@@ -439,6 +464,7 @@ def _replay_prepare(pm, case_name, cfg, model):
       env[k] = float(Fr(v))
   with C.use(c):
     c.for_native = True
+    c.native_dtype = getattr(case, 'native_dtype', 'float64')
     case.setup(cfg, c)
     args, kw = case.build(cfg)
     return describe_call(ct, args, kw, env)
@@ -459,6 +485,7 @@ def _replay_evaluate(pm, case_name, cfg, model, desc, nat, tol=1e-7):
       env[k] = float(Fr(v))
   with C.use(c):
     c.for_native = True
+    c.native_dtype = getattr(case, 'native_dtype', 'float64')
     case.setup(cfg, c)
     args, kw = case.build(cfg)
     fresh = ct.fresh_out(*args, **kw)
@@ -785,7 +812,7 @@ def conclude(pm, tier, seed, results, t0, extra=None, run_jobs=None, opts=None):
   return rc
 
 
-def _close(a, b, tol=1e-6):
+def _close(a, b, tol=2e-5):
   import numpy as np
   if isinstance(a, dict) and '__t__' in a:
     a = a['__t__']
